@@ -42,6 +42,8 @@ type FieldSpec struct {
 	Ignored bool
 	// TagStyle: 0 as documented (primaryKey, column:…), 1 upper-case keys (PRIMARYKEY, COLUMN:…), 2 snake alias (primary_key)
 	TagStyle int
+	// TagSpace: 0 `a;b:c`, 1 `a; b:c`, 2 `a;  b :c` (blanks before and after the keys only: values are taken verbatim)
+	TagSpace int
 }
 
 // StructSpec is an ordered list of fields.
@@ -68,7 +70,20 @@ func (f *FieldSpec) Tag() string {
 			}
 		}
 	}
-	return strings.Join(parts, ";")
+	// spacing: gorm trims the keys, so blanks after `;` and before `:` change nothing
+	sep := ";"
+	switch f.TagSpace {
+	case 1:
+		sep = "; "
+	case 2:
+		sep = ";  "
+		for i, p := range parts {
+			if j := strings.Index(p, ":"); j >= 0 {
+				parts[i] = p[:j] + " " + p[j:]
+			}
+		}
+	}
+	return strings.Join(parts, sep)
 }
 
 func (f *FieldSpec) tagParts() []string {
@@ -364,6 +379,12 @@ func (m *Model) AutoKey() *Leaf {
 	}
 	if len(keys) == 1 && keys[0].Kind.AutoInc && keys[0].Spec.AutoIncTag == "" {
 		return keys[0]
+	}
+	// among several keys an integer key field named ID is the prioritized one and auto-increments
+	for _, l := range keys {
+		if l.Spec.Name == "ID" && len(l.Path) == 1 && l.Kind.AutoInc && l.Spec.AutoIncTag == "" {
+			return l
+		}
 	}
 	return nil
 }
